@@ -445,6 +445,8 @@ func main() {
 	flag.Var(&swapFiles, "swapsync", "file whose sync / go-deadlock imports are swapped for the shims (R3)")
 	flag.Var(&builderFiles, "builder", "file whose strings.Builder becomes verifrt.Builder (R4)")
 	flag.Var(&addFiles, "add", "relpath=source : overlay-only file (R5)")
+	var eventSpecs multi
+	flag.Var(&eventSpecs, "events", "file:Func1,Func2 : announce the entry of these functions / methods through verifrt.Event (R6)")
 	flag.Parse()
 	if *id == "" || *out == "" {
 		fail("usage: instr -id ID -out DIR [-chan f]... [-swapsync f]... [-builder f]... [-add rel=src]...")
@@ -457,8 +459,19 @@ func main() {
 	if err := os.MkdirAll(*out, 0o755); err != nil {
 		fail("%v", err)
 	}
+	events := map[string][]string{}
+	for _, e := range eventSpecs {
+		parts := strings.SplitN(e, ":", 2)
+		if len(parts) != 2 {
+			fail("bad -events %q", e)
+		}
+		events[parts[0]] = strings.Split(parts[1], ",")
+	}
 	replace := map[string]string{}
 	all := map[string]bool{}
+	for f := range events {
+		all[f] = true
+	}
 	for _, l := range [][]string{chanFiles, swapFiles, builderFiles} {
 		for _, f := range l {
 			all[f] = true
@@ -504,6 +517,21 @@ func main() {
 			for _, d := range f.Decls {
 				if fd, ok := d.(*ast.FuncDecl); ok && fd.Body != nil {
 					r.rewriteBlock(fd.Body)
+				}
+			}
+		}
+		if names, ok := events[rel]; ok {
+			found := map[string]bool{}
+			for _, d := range f.Decls {
+				if fd, ok := d.(*ast.FuncDecl); ok && fd.Body != nil && in(names, fd.Name.Name) {
+					fd.Body.List = append([]ast.Stmt{&ast.ExprStmt{X: rtCall("Event", strLit(fd.Name.Name))}}, fd.Body.List...)
+					found[fd.Name.Name] = true
+					r.usedRT = true
+				}
+			}
+			for _, n := range names {
+				if !found[n] {
+					fail("%s: function %s (to be announced) not found", rel, n)
 				}
 			}
 		}
